@@ -107,9 +107,10 @@ def finish(res: Result, tier: str, seed: int, t0: float, explanation: str, assum
            trusted: list, evidence_dir: Optional[str] = None, quiet: bool = False) -> int:
     """Print the protocol lines, write evidence, return the exit code."""
     known, _fixed = load_known()
-    evidence_dir = evidence_dir or os.path.join(VERIF, "evidence")
+    scratch = os.environ.get("PVLINT_SCRATCH_DIR")      # used when checking a scratch tree: never touch committed evidence
+    evidence_dir = evidence_dir or (os.path.join(scratch, "evidence") if scratch else os.path.join(VERIF, "evidence"))
     os.makedirs(evidence_dir, exist_ok=True)
-    replay_dir = os.path.join(VERIF, "replay", res.prop)
+    replay_dir = os.path.join(scratch or VERIF, "replay", res.prop)
 
     # floors: a rule that matches fewer instances than confirmed by hand passes vacuously -> exit 2
     for fam, fl in res.floors.items():
